@@ -561,6 +561,7 @@ void runHugeRing(rt::Rng rng) {
 
 int main(int argc, char **argv) {
     rt::init(argc, argv);
+    rt::cpuBudgetPerCase(240);   // single-threaded, deterministic: a case that burns 240 s of CPU time does not terminate
     gProp = rt::st().prop == "C09" ? "C09" : "C04";
     bool life = rt::st().prop == "C09";
     LifeRegistry::get().prop = "C09";
